@@ -635,7 +635,32 @@ func (e *Exec) trQuant(x *SQuant, env *SpecEnv) TV {
 	bs := strings.Join(binders, " ")
 	var txt string
 	if x.Forall {
-		txt = fmt.Sprintf("(forall (%s) %s)", bs, Implies(And(guards...), body.T).S)
+		// a body that expands (through a spec function) to a universal formula is merged into this binder list:
+		// the outer variables then occur in the triggers of the inner atoms
+		bt := body.T
+		for strings.HasPrefix(bt.S, "(forall ((") {
+			parts := splitTop(bt.S[1 : len(bt.S)-1])
+			if len(parts) != 3 || strings.HasPrefix(parts[2], "(! ") {
+				break
+			}
+			inner := parts[1][1 : len(parts[1])-1]
+			clash := false
+			for _, b := range splitTop(inner) {
+				nm := strings.Fields(b[1:])[0]
+				if strings.Contains(bs, "("+nm+" ") {
+					clash = true
+				}
+			}
+			if clash {
+				break
+			}
+			for _, b := range splitTop(inner) {
+				names = append(names, strings.Fields(b[1:])[0])
+			}
+			bs += " " + inner
+			bt = Term{parts[2], SBool}
+		}
+		txt = fmt.Sprintf("(forall (%s) %s)", bs, Implies(And(guards...), bt).S)
 	} else {
 		txt = fmt.Sprintf("(exists (%s) %s)", bs, And(append(guards, body.T)...).S)
 	}
@@ -1003,7 +1028,7 @@ func rewriteSelfCalls(txt, name, hargs string) string {
 
 
 // parameters of an enclosing predicate instance (nested pred calls inside a pred body)
-var outerParamRe = regexp.MustCompile(`\b[ib]!p[0-9]+\b`)
+var outerParamRe = regexp.MustCompile(`\b[ib]!p[0-9]+\b|\b[vuwt]!pred\b|@V@`)
 var innerPredRe = regexp.MustCompile(`\(P_[A-Za-z0-9_]+![0-9a-f]+ v!pred\)`)
 var qvarRe = regexp.MustCompile(`![q]([0-9]+)`)
 var qvarFullRe = regexp.MustCompile(`[A-Za-z_][A-Za-z0-9_]*![q][0-9]+`)
@@ -1018,9 +1043,24 @@ func (e *Exec) predCall(sf *SpecFunc, sfPkg *types.Package, args0 []TV, env *Spe
 	if sf.Prop {
 		last = -1 // no view parameter
 	}
+	// the view variable gets a name that does not occur in the fixed arguments (an enclosing predicate's view variable
+	// may be a fixed argument of this instance)
+	vname := "v!pred"
+	for _, cand := range []string{"v!pred", "u!pred", "w!pred", "t!pred"} {
+		free := true
+		for i, a := range args {
+			if i != last && strings.Contains(a.T.S, cand) {
+				free = false
+			}
+		}
+		if free {
+			vname = cand
+			break
+		}
+	}
 	for i, p := range sf.Params {
 		if i == last {
-			n.vars[p.Name] = TV{Term{"v!pred", SInt}, args[i].Ty}
+			n.vars[p.Name] = TV{Term{vname, SInt}, args[i].Ty}
 		} else {
 			n.vars[p.Name] = args[i]
 		}
@@ -1101,8 +1141,8 @@ func (e *Exec) predCall(sf *SpecFunc, sfPkg *types.Package, args0 []TV, env *Spe
 		}
 		if last >= 0 {
 			sorts = append(sorts, "Int")
-			binders = append(binders, "(v!pred Int)")
-			formals = append(formals, "v!pred")
+			binders = append(binders, "("+vname+" Int)")
+			formals = append(formals, vname)
 		}
 		e.rawDecl("fun:"+name, fmt.Sprintf("(declare-fun %s (%s) Bool)", name, strings.Join(sorts, " ")))
 		if len(formals) == 0 {
@@ -1121,6 +1161,31 @@ func (e *Exec) predCall(sf *SpecFunc, sfPkg *types.Package, args0 []TV, env *Spe
 				}
 			}
 			e.globalAxiom(fmt.Sprintf("(assert (forall (%s) (! (= %s %s) %s)))", strings.Join(binders, " "), app, canon, pats))
+			if len(idxActuals) > 0 {
+				// term-creation bridges between the instances of one predicate over S[e] in different heap versions:
+				// a ground atom of one version creates the atom of the other, so both definitions unfold at that point
+				// (the bridge formula itself is an implication into a fresh predicate: conservative)
+				fam := fmt.Sprintf("%s.%s/%d", sf.Pkg, sf.Name, len(formals))
+				prev := e.predFamilies[fam]
+				if len(prev) > 5 {
+					prev = prev[len(prev)-5:]
+				}
+				mkBridge := func(from, to string) {
+					bn := "B_" + from
+					e.rawDecl("fun:"+bn, fmt.Sprintf("(declare-fun %s (%s) Bool)", bn, strings.Join(sorts, " ")))
+					fa := strings.Join(formals, " ")
+					e.predBridges = append(e.predBridges, predBridge{from, to, e.nDecls(),
+						fmt.Sprintf("(assert (forall (%s) (! (=> (%s %s) (%s %s)) :pattern ((%s %s)))))", strings.Join(binders, " "), from, fa, bn, fa, to, fa)})
+				}
+				for _, o := range prev {
+					mkBridge(o, name)
+					mkBridge(name, o)
+				}
+				if e.predFamilies == nil {
+					e.predFamilies = map[string][]string{}
+				}
+				e.predFamilies[fam] = append(e.predFamilies[fam], name)
+			}
 		}
 	}
 	var actuals []Term
